@@ -316,6 +316,7 @@ class AccessoryDriver:
         network_tuple = (listen_address, self.state.port)
         self.http_server = HAPServer(network_tuple, self)
         self.prepared_writes = {}
+        self._persist_lock = threading.Lock()
 
     def start(self):
         """Start the event loop and call `start_service`.
@@ -645,29 +646,30 @@ class AccessoryDriver:
         Must run in executor.
         """
         logger.debug("Writing of accessory state to disk")
-        tmp_filename = None
-        try:
-            temp_dir = os.path.dirname(self.persist_file)
-            logger.debug("Creating temp persist file in '%s'", temp_dir)
-            with tempfile.NamedTemporaryFile(
-                mode="w", dir=temp_dir, delete=False
-            ) as file_handle:
-                tmp_filename = file_handle.name
-                logger.debug("Created temp persist file '%s' named '%s'", file_handle, tmp_filename)
-                self.encoder.persist(file_handle, self.state)
-            if (
-                os.name == "nt"
-            ):  # Or `[WinError 5] Access Denied` will be raised on Windows
-                os.chmod(tmp_filename, 0o644)
-                if os.path.exists(self.persist_file):
-                    os.chmod(self.persist_file, 0o644)
-            os.replace(tmp_filename, self.persist_file)
-        except Exception:  # pylint: disable=broad-except
-            logger.exception("Failed to persist accessory state")
-            raise
-        finally:
-            if tmp_filename and os.path.exists(tmp_filename):
-                os.remove(tmp_filename)
+        with self._persist_lock:
+            tmp_filename = None
+            try:
+                temp_dir = os.path.dirname(self.persist_file)
+                logger.debug("Creating temp persist file in '%s'", temp_dir)
+                with tempfile.NamedTemporaryFile(
+                    mode="w", dir=temp_dir, delete=False
+                ) as file_handle:
+                    tmp_filename = file_handle.name
+                    logger.debug("Created temp persist file '%s' named '%s'", file_handle, tmp_filename)
+                    self.encoder.persist(file_handle, self.state)
+                if (
+                    os.name == "nt"
+                ):  # Or `[WinError 5] Access Denied` will be raised on Windows
+                    os.chmod(tmp_filename, 0o644)
+                    if os.path.exists(self.persist_file):
+                        os.chmod(self.persist_file, 0o644)
+                os.replace(tmp_filename, self.persist_file)
+            except Exception:  # pylint: disable=broad-except
+                logger.exception("Failed to persist accessory state")
+                raise
+            finally:
+                if tmp_filename and os.path.exists(tmp_filename):
+                    os.remove(tmp_filename)
 
     def load(self):
         """Load the persist file.
